@@ -524,9 +524,14 @@ func (r *seqRun) opRawReg(st Step) *evid.Failure {
 	if nets&net6 != 0 {
 		np = append(np, ipv6.ProtocolNumber)
 	}
+	// dup: an open identity occupies one of the tables this registration goes
+	// into (for raw endpoints the tables are known: Nets as registered)
 	dup := false
 	for _, o := range r.open {
 		if o.id.sameSlot(id) {
+			dup = true
+		}
+		if o.kind == kRaw && o.id.Nets&id.Nets != 0 && o.id.Trans == id.Trans && o.id.NIC == id.NIC && o.id.LA == id.LA && o.id.LP == id.LP && o.id.RA == id.RA && o.id.RP == id.RP {
 			dup = true
 		}
 	}
@@ -1117,7 +1122,7 @@ func runSeqOnce(c SeqCase) (f *evid.Failure, liveness bool) {
 	if f := r.finish(); f != nil {
 		return f, false
 	}
-	if r.hadNT {
+	if r.hadNT && evid.ShardIdx%4 == 0 {
 		evid.Sample("seq-nontrivial", c)
 	}
 	return nil, false
@@ -1125,11 +1130,15 @@ func runSeqOnce(c SeqCase) (f *evid.Failure, liveness bool) {
 
 // runSeq decides one case. A failure that rests on a deadline ("did not
 // happen within 5 s") is only reported when two more runs of the same case in
-// fresh stacks miss the same deadline (DESIGN 2.4).
+// fresh stacks miss the same deadline (DESIGN 2.4). Once such a failure has
+// been confirmed in this process, later ones (rapid is then minimising the
+// case) are taken at face value: every confirmation costs 10 more seconds.
+var livenessConfirmed bool
+
 func runSeq(c SeqCase) *evid.Failure {
 	evid.Journal("seq", c)
 	f, live := runSeqOnce(c)
-	if f == nil || !live {
+	if f == nil || !live || livenessConfirmed {
 		return f
 	}
 	for k := 0; k < 2; k++ {
@@ -1142,6 +1151,7 @@ func runSeq(c SeqCase) *evid.Failure {
 			return f2
 		}
 	}
+	livenessConfirmed = true
 	return f
 }
 
@@ -1157,10 +1167,10 @@ func genStep(rt *rapid.T, op int) Step {
 	switch op {
 	case opInject:
 		st.Trans = rapid.SampledFrom([]int{transUDP, transUDP, transTCP}).Draw(rt, "trans")
-		st.Addr = rapid.SampledFrom([]int{0, 0, 0, 1, 1, 1, 2, 2, 3, 3, 4, 4, 5, 6, 7, 8, 9}).Draw(rt, "dst")
+		st.Addr = rapid.SampledFrom([]int{0, 0, 0, 0, 0, 1, 1, 1, 1, 2, 2, 2, 2, 3, 3, 3, 4, 4, 4, 5, 6, 7, 8, 9}).Draw(rt, "dst")
 		st.Port, st.RAddr, st.RPort = pick("dport", len(lports)), pick("src", len(raddrs)), pick("sport", len(rports))
 		st.NIC = rapid.IntRange(1, 2).Draw(rt, "nic")
-		if rapid.IntRange(0, 4).Draw(rt, "targeted") > 0 {
+		if rapid.IntRange(0, 7).Draw(rt, "targeted") > 0 {
 			st.Ref = pick("ref", 12)
 			st.Mut = fewBits("mut")
 		}
@@ -1232,7 +1242,7 @@ var opWeights = func() []int {
 func genSeq(rt *rapid.T) SeqCase {
 	c := SeqCase{NICs: rapid.SampledFrom([]int{1, 2, 2}).Draw(rt, "nics")}
 	for k := 0; k < nAssignable; k++ {
-		if rapid.IntRange(0, 3).Draw(rt, "assigned") > 0 {
+		if rapid.IntRange(0, 5).Draw(rt, "assigned") > 0 {
 			c.Init = append(c.Init, k)
 		}
 	}
